@@ -1,5 +1,6 @@
 import Logrange.Proofs.LqlInt
 import Logrange.Proofs.LqlLexNP
+import Logrange.Proofs.LqlEngineAll
 import Logrange.Proofs.LqlFuel
 import Logrange.Proofs.LqlQuoteRT
 /-!
@@ -554,5 +555,60 @@ theorem strAtomOK_every_valid_utf8 (v : Bytes) (h : GoLib.isValidUtf8 v = true) 
 
 example : strAtomOK [0xff] = false ∧ GoLib.isValidUtf8 [0xff] = false ∧ GoLib.isValidUtf8 [0xc3, 0xa9, 32, 34, 92, 9, 0xe2, 0x82, 0xac] = true := by
   decide +kernel
+
+/-! ## engine = direct parser for EVERY statement kind (`Proofs/LqlEngineStmt/Select/Trunc/Misc/All.lean`) -/
+
+/-- what the statement-level theorem asks of the opaque date parser: it rejects the eleven texts `(`, `<`, `>`, `>=`, `<=`, `!=`,
+`=`, `CONTAINS`, `PREFIX`, `SUFFIX`, `LIKE` (they are no dates; C20's side) -/
+def DateRejectsOperators (dp : Bytes → Option Int) : Prop := ∀ b ∈ LP :: condOps, dp b = none
+
+/-- **engine = direct parser, root `Lql`**: for every token list the lexer can produce (`OperandNotParen`), the participle-engine
+interpreter on the REGENERATED grammar followed by the typed application of the captures and `ParseLql`'s post-check equals
+the direct statement parser `directLql` — SELECT (format, FROM, RANGE, WHERE, POSITION, OFFSET, LIMIT), DESCRIBE, TRUNCATE, SHOW
+PARTITIONS / PIPES, CREATE PIPE, DELETE PIPE, bare keywords, rejected statements — with the models' own fuels. Every struct body
+is pinned by `rfl` against `Generated/C12.lean` (`g_lql`, `g_select`, `g_range`, `g_position`, `g_truncate`, `g_show`, `g_partitions`,
+`g_pipes`, `g_describe`, `g_create`, `g_pipe`, `g_delete`, `g_source`, `g_expr`, `g_or`, `g_x`, `g_cond`, `g_ident`). -/
+theorem engine_eq_direct_lql (dp : Bytes → Option Int) (hdp : DateRejectsOperators dp) (toks : List Tok) (hH : OperandNotParen toks) :
+    (runEngine Logrange.Generated.C12.grammar "Lql" toks).bind (toLqlChecked dp (8 * toks.length + 50)) = directLql dp toks :=
+  engine_direct_lql dp hdp toks hH
+
+/-- **the parser model `parseLql` (lexer, engine on the regenerated grammar, captures, post-check) IS the lexer followed by the
+direct statement parser**, on every text -/
+theorem parse_lql_eq_direct (dp : Bytes → Option Int) (hdp : DateRejectsOperators dp) (text : Bytes) :
+    parseLql dp text = (lex text).bind (directLql dp) := by
+  unfold parseLql
+  cases h : lex text with
+  | none => rfl
+  | some ts =>
+    have := engine_eq_direct_lql dp hdp ts (lex_operandNotParen text ts h)
+    simp only [Option.bind_some]
+    rw [← this]
+    unfold grammar
+    cases runEngine Logrange.Generated.C12.grammar "Lql" ts <;> rfl
+
+/-- **print then parse with the full parser model**: for every statement in the parser's image minus F12b / F12e whose printed
+text lexes to its tokens (`LexableLql`: excludes F12a), `parseLql` of the printed text is the statement — every statement kind,
+any depth, no fuel hypothesis, given the date contract (C20's side) -/
+theorem print_parse_lql_model (dp : Bytes → Option Int) (rd : Int → Bytes) (hdp : DateRejectsOperators dp) (l : Lql)
+    (hw : wfLql rd l = true) (hc : LqlContract dp rd l) (hl : LexableLql rd l) :
+    parseLql dp (printLql rd l) = some l := by
+  rw [parse_lql_eq_direct dp hdp, hl]
+  exact C12_wf_canonical_fuel dp rd l hw hc
+
+/-- the hypothesis on the date parser is needed: with a date parser that accepts `(` the two parsers differ on
+`TRUNCATE BEFORE "(" MAXDBSIZE 10` (kernel-checked in `Proofs/LqlEngineTrunc.lean`), and it is met by the example parsers -/
+example : OperandNotParen cexTruncToks ∧
+    ((runEngine Logrange.Generated.C12.grammar "Lql" cexTruncToks).bind (toLqlChecked (fun _ => some 0) 1000)).isSome = false ∧
+    (dTruncateRest (fun _ => some 0) (directFuel cexTruncToks) cexTruncToks.tail).isSome = true := cex_truncate_dp
+example : DateRejectsOperators dp0 ∧ DateRejectsOperators dpEx := by
+  constructor <;> (intro b hb; revert b; decide +kernel)
+example : parseLql dpEx (printLql rdEx { select := some exS }) = some { select := some exS } :=
+  print_parse_lql_model dpEx rdEx (by intro b hb; revert b hb; decide +kernel) _ (by decide +kernel)
+    ⟨fun s hs => by
+        cases hs
+        intro r hr; cases hr
+        have hdr : dpEx (rdEx 1546432495500000000) = some 1546432495500000000 := by decide +kernel
+        exact ⟨fun v hv => by cases hv; exact hdr, fun v hv => by cases hv; exact hdr⟩,
+      fun t ht => by cases ht⟩ (by unfold LexableLql; decide +kernel)
 
 end Logrange.Props.C12
